@@ -317,3 +317,23 @@ prop("C07", "c07",
            "race-detector stress, both checked for linearizability against a sequential model; bounded exploration.",
      note="Trusted: porcupine's checker, the scheduler shim (vsync), the instrumenter (inserts yields and swaps lock types only).",
      technique="schedule-generating property-based testing + linearizability checking (porcupine) + race detector stress")
+
+prop("C17", "c17",
+     "A table of 15 mechanism configurations covering every mechanism type with overridable options (anonymous, basic_auth, "
+     "jwt with JWKS and with metadata endpoint, oauth2_introspection with endpoint and with metadata endpoint, generic "
+     "authenticator, cel and remote authorizers, generic contextualizer, header / cookie / jwt / oauth2_client_credentials "
+     "finalizers, www_authenticate error handler), each with 1-6 rule-level overrides touching scalar, list- and map-typed "
+     "options. Metamorphic (order independence): the observable behaviour of the prototype or a variant (status, everything "
+     "handed to the upstream side, what the deterministic remote side received) on a catalogue where it is the only rule must "
+     "equal its behaviour after all other variants (and those of another mechanism) were created in a generated load order and "
+     "executed twice in a generated order. Schedules: prototype and all variants of all mechanisms are executed from 12 "
+     "goroutines under -race from the very first execution; a data race report or a behaviour that differs from the object's "
+     "first observed behaviour is a violation. Every generated case is non-trivial (>= 2 variants); distinct by (mechanism, "
+     "target, load order, execution order).",
+     [dict(run="^TestVariantsAreIndependentOfEachOther$", quick=250, thorough=2500, shards_thorough=10),
+      dict(run="^TestConcurrentExecutionIsRaceFree$", quick=1, thorough=1, shards_thorough=2, race=True)],
+     ["the remote side is a deterministic function of what it receives", "mechanism caches are off (no cache in the request context) so executions do not influence each other through the cache"],
+     level="Randomised generated search over creation/execution orders with a metamorphic oracle, plus a race-detector stress "
+           "over all mechanism types; bounded exploration.",
+     note="Trusted: the race detector; the scripted remote side.",
+     technique="property-based testing: metamorphic order-independence + -race stress")
